@@ -21,12 +21,15 @@ Section Ops.
   | OSetUnion (l : list K)             (* x = x | s2, x.union(l)           (clone, then insert)   *)
   | OSetInter (l : list K)             (* x = x & s2, x.intersection(l)                           *)
   | OSetDiff (l : list K)              (* x = x - s2, x.difference(l)      (clone, then delete)   *)
-  | OSetSymDiff (l : list K).          (* x = x ^ s2, x.symmetric_difference(l)                   *)
+  | OSetSymDiff (l : list K)           (* x = x ^ s2, x.symmetric_difference(l)                   *)
+  | OIsSubset (l : list K)             (* x.issubset(l), x <= s2           (hashtable.count)      *)
+  | OIsSuperset (l : list K).          (* x.issuperset(l), x >= s2         (Has for every element) *)
 
   Inductive out :=
   | ONone                              (* nothing observable beyond the state                     *)
   | OVal (r : option V)                (* lookup/delete/setdefault: the value, None = not found   *)
-  | OKV (r : option (K * V)).          (* popitem / pop: the removed pair, None = "empty" error   *)
+  | OKV (r : option (K * V))           (* popitem / pop: the removed pair, None = "empty" error   *)
+  | OBool (b : bool).                  (* issubset / issuperset                                   *)
 End Ops.
 Arguments op : clear implicits.
 Arguments out : clear implicits.
